@@ -126,7 +126,12 @@ def main():
     nvar = getattr(mod, "N_VARIANTS", 4)
     variant = seed % nvar
     t0 = time.time()
-    shards = list(mod.plan(a.tier, variant))
+    env.install_watchdog()
+    env.mute()
+    try:
+        shards = list(mod.plan(a.tier, variant))
+    finally:
+        env.unmute()
     _MOD, _TIER, _SHARDS = mod, a.tier, shards
     cap_s = float(os.environ.get("VERIF_CAP_S", "900" if a.tier == "quick" else "7200"))
 
